@@ -55,7 +55,7 @@ XSD_SAMPLES = {
     'duration': [u'PT1H', u'P1Y2M3DT4H5M6.7S', u'-P1D'],
     'decimal': [u'0', u'0.5', u'1', u'+1.0', u'-0'],
     'double': [u'0', u'1.5', u'-1E4', u'INF', u'NaN', u'.5'],
-    'integer': [u'0', u'-5', u'+7', u'007'],
+    'integer': [u'0', u'-5', u'+7', u'007', u'-0', u'+0012345678901234567890'],
     'nonNegativeInteger': [u'0', u'12', u'+3'],
     'positiveInteger': [u'1', u'10', u'+2'],
     'language': [u'en', u'en-US', u'x-klingon', u'abcdefgh-12345678'],
@@ -118,6 +118,10 @@ class Values(object):
             for mode in ('min', 'max', 'rand'):
                 toks = self.body(at[1], mode)
                 out.append(u' '.join(toks))
+            # list items are separated by any run of XML white space
+            toks = self.body(at[1], 'rand')
+            if len(toks) > 1:
+                out.append(toks[0] + u''.join(self.rng.choice([u'\t', u'\n', u'  ', u' \r\n ', u' ']) + t for t in toks[1:]))
             return out
         if at[0] == 'text':
             return XSD_SAMPLES['string'][:5]
@@ -210,7 +214,9 @@ def near_misses(kind, valid, members=None):
     if kind == 'points':
         out += [u'1.5,2.5 3,4', u'1,2 3', u'1,2,3', u'1,2;3,4', u'1 2', u'1,2\t3,4', u',', u'1,', u'1,2 ']
     if kind == 'viewbox':
-        out += [u'0 0 10', u'0 0 10.5 10', u'0,0,10,10', u'0 0 10 10 10', u'0 0 10 1e1', u'a b c d', u'0 0 10 10junk']
+        out += [u'0 0 10', u'0 0 10.5 10', u'0,0,10,10', u'0 0 10 10 10', u'0 0 10 1e1', u'a b c d', u'0 0 10 10junk', u'--1 0 10 10',
+                u'+-1 0 10 10', u'1,2,3,4', u'0\u00a00 10 10', u'0\u20030 10 10', u'0\x0b0 10 10', u'0 0 10 10.', u'0 0 10 + 10', u'0 0 10 0x10',
+                u'\u0660 0 10 10', u'0;0;10;10', u'0 0 1_0 10', u'']
     return out
 
 
@@ -308,7 +314,7 @@ def run(chk, replay=None):
         if f in ENUM_CONVERTERS:
             enum_union.setdefault(f, set()).update(at[1] for at in dt if at[0] == 'val')
     type_valid = {'length': [u'12cm', u'-0.5in', u'.5pt', u'3.mm', u'10px', u'1pc'], 'percent': [u'50%', u'-12.5%', u'.5%', u'7.%'],
-                  'points': [u'1,2', u'1,2 -3,-4', u'0,0  10,10 5,5'], 'viewbox': [u'0 0 10 10', u'-5 -5  20 20']}
+                  'points': [u'1,2', u'1,2 -3,-4', u'0,0  10,10 5,5'], 'viewbox': [u'0 0 10 10', u'-5 -5  20 20', u'+0 -0\t007 +10']}
 
     # ------------------------------------------------------------ 3+4 the sweep over every (element, attribute) pair
     pairs = {}
